@@ -120,6 +120,7 @@ type genState struct {
 	keys    []string
 	batchNo int
 	uniq    int
+	lonely  bool // the last batch only created or deleted a child collection
 	// tree of existing children as the generator believes (used only to
 	// make interesting choices, not for checking)
 	tree *model.Coll
@@ -278,7 +279,19 @@ func (g *genState) batch() *model.Batch {
 	r := g.r
 	childOnly := g.gp.Children && r.Intn(100) < g.gp.ChildOnlyPct
 	delOnly := g.gp.Children && !childOnly && r.Intn(100) < g.gp.DelOnlyPct && len(g.tree.Ch) > 0
+	if g.gp.Children && !childOnly && !delOnly && r.Intn(100) < g.gp.DelOnlyPct {
+		// creation-only batch: nothing but a still empty child collection
+		for _, name := range childNames {
+			if _, ok := g.tree.Ch[name]; !ok {
+				b.Children = []model.ChildBatch{{Name: name, B: &model.Batch{}}}
+				g.tree.Apply(b, MergeFold)
+				g.lonely = true
+				return b
+			}
+		}
+	}
 	if delOnly {
+		g.lonely = true
 		names := g.tree.ChildNames()
 		name := names[r.Intn(len(names))]
 		if sub := g.tree.Ch[name].ChildNames(); g.gp.Nested && len(sub) > 0 && r.Chance(1, 2) {
@@ -548,7 +561,17 @@ func GenProgram(r *Rng, prop string, cfg Config, gp GenParams) *Program {
 			add(Step{K: "batch", B: g.batch()})
 			g.gp.WideKeys = gp.WideKeys
 		} else {
-			add(Step{K: "batch", B: g.batch()})
+			g.lonely = false
+			b := g.batch()
+			if g.lonely && store && gp.Reopen && r.Chance(1, 2) {
+				// a persistence round holding nothing but this batch, then a
+				// caught-up close and reopen
+				add(Step{K: "drain"})
+				add(Step{K: "batch", B: b})
+				add(Step{K: "reopen", A: "caughtup"})
+				continue
+			}
+			add(Step{K: "batch", B: b})
 		}
 		handleSteps()
 		fresh = true
